@@ -88,8 +88,8 @@ def quadkey_bounds(qk):
 
 
 def gen_mags(R, max_bins=5):
-    dm = R.choice((0.1, 0.2, 0.5, 1.0))
-    m0 = R.choice((2.5, 3.0, 3.95, 4.0, 4.95, 5.0, 5.95))
+    dm = R.choice((0.1, 0.1, 0.2, 0.5, 1.0, 0.125, 0.05, 0.25))
+    m0 = R.choice((2.5, 3.0, 3.95, 4.0, 4.95, 5.0, 5.95, 3.975, 5.125))
     n = R.randint(1, max_bins)
     # clean decimals
     return {'dm': dm, 'edges': [dec(m0 + k * dm, 4) for k in range(n)]}
